@@ -160,6 +160,45 @@ Proof.
     congruence.
 Qed.
 
+Definition kind_extra (k : authkind) (cl : clienttable) (id : string) : Prop :=
+  match k with
+  | AKVerify => True
+  | AKLookup => exists m, lookup_client cl id = Some m
+  | AKPk => lookup_client cl id = Some private_key_jwt
+  end.
+
+Lemma auth_by_iff verify k v t cl now tok id :
+  auth_by verify k v t cl now tok = Ok id <->
+  exists c, verify_assertion verify v t now tok = Ok c /\ id = c_iss c /\ kind_extra k cl id.
+Proof.
+  destruct k; cbn [auth_by kind_extra].
+  - rewrite jwt_profile_grant_iff. split; [intros (c & H & ->); now exists c | intros (c & H & -> & _); now exists c].
+  - apply provider_router_auth_iff.
+  - apply authorize_private_jwt_key_iff.
+Qed.
+
+Lemma router_endpoint_auth_iff verify legacy ep owner v t cl now tok id :
+  router_endpoint_auth verify legacy ep owner v t cl now tok = Ok id <->
+  exists c, verify_assertion verify v t now tok = Ok c /\ id = c_iss c
+            /\ kind_extra (ep_auth legacy ep) cl id /\ (ep_owned ep = true -> id = owner).
+Proof.
+  unfold router_endpoint_auth.
+  destruct (auth_by verify (ep_auth legacy ep) v t cl now tok) as [i|x] eqn:Ha.
+  - apply auth_by_iff in Ha. destruct Ha as (c & Hc & -> & Hk).
+    destruct (ep_owned ep); cbn [andb].
+    + destruct (String.eqb_spec (c_iss c) owner) as [He|He]; cbn [negb].
+      * split; [intro H; injection H as <-; exists c; now repeat split|].
+        intros (c' & H & -> & _). rewrite Hc in H. now injection H as <-.
+      * split; [discriminate|]. intros (c' & H & -> & _ & Ho). rewrite Hc in H. injection H as <-.
+        elim He. now apply Ho.
+    + split; [intro H; injection H as <-; exists c; repeat split; try assumption; discriminate|].
+      intros (c' & H & -> & _). rewrite Hc in H. now injection H as <-.
+  - split; [discriminate|]. intros (c' & H & -> & Hk & _).
+    assert (Hx : auth_by verify (ep_auth legacy ep) v t cl now tok = Ok (c_iss c'))
+      by (apply auth_by_iff; now exists c').
+    congruence.
+Qed.
+
 (* one verifier serving a sequence: step n is decided by step n alone *)
 Lemma sequence_independent verify t pre s post :
   nth (List.length pre) (verify_sequence verify t (pre ++ s :: post)) (Err EOther)
@@ -207,6 +246,22 @@ Proof.
   - apply provider_router_auth_iff in H. destruct H as (c & H1 & H2 & _). now exists c.
 Qed.
 
+(* every endpoint of both routers: the identity a request acts under is the issuer of an
+   assertion that [verify_assertion] accepted for THIS request's verifier configuration;
+   what it redeems belongs to exactly that client; code exchange, refresh and everything on
+   the LegacyServer router behind VerifyClient need a private_key_jwt registration *)
+Lemma router_endpoint verify legacy ep owner v t cl now tok id :
+  router_endpoint_auth verify legacy ep owner v t cl now tok = Ok id ->
+  (exists c, verify_assertion verify v t now tok = Ok c /\ id = c_iss c)
+  /\ (ep_owned ep = true -> id = owner)
+  /\ (ep_auth legacy ep = AKPk -> lookup_client cl id = Some private_key_jwt)
+  /\ (ep_auth legacy ep = AKLookup -> exists m, lookup_client cl id = Some m).
+Proof.
+  intro H. apply router_endpoint_auth_iff in H. destruct H as (c & Hc & -> & Hk & Ho).
+  split; [now exists c|]. split; [exact Ho|].
+  split; intro He; rewrite He in Hk; exact Hk.
+Qed.
+
 Lemma client_auth verify v t cl now tok id :
   authorize_private_jwt_key verify v t cl now tok = Ok id ->
   (exists c, verify_assertion verify v t now tok = Ok c /\ id = c_iss c)
@@ -238,6 +293,59 @@ Proof.
   - split; [reflexivity|]. unfold sig_ok. cbn [sd_wf sd_alg sd_kid c_iss].
     split; [reflexivity|]. split; [exact Hal|]. exists key. split; [exact Hk|].
     apply (Hv (mkSig true alg kid key true)). reflexivity.
+Qed.
+
+(* the same for EVERY max age that covers the real age of the assertion: what a helper
+   call writes for its own clock reading [tb] is accepted at [now] by a verifier whose max
+   age is 0 or at least (now - tb) + 1.5 s, as long as the asked lifetime has not run out *)
+Lemma interop_fresh verify v t now tb client kid key alg auds life :
+  (forall d, sd_intact d = true -> verify (sd_signer d) d = true) ->
+  lookup_key t client kid = Some key ->
+  In alg accepted_algs -> In (v_issuer v) auds ->
+  0 <= v_offset v ->
+  (v_max_age v = 0 \/ now - tb + second + half_second <= v_max_age v) ->
+  second <= tb -> tb <= now ->
+  now + v_offset v < (tb / second + life) * second ->
+  verify_assertion verify v t now (helper_token client auds life alg kid key tb)
+  = Ok (helper_claims client auds life tb).
+Proof.
+  intros Hv Hk Hal Ha Ho Hm Htb Hnow He. unfold helper_token. apply verify_assertion_iff.
+  exists (mkSig true alg kid key true). split; [reflexivity|]. split; [exact Ha|].
+  split.
+  - unfold time_ok, helper_claims. cbn [c_exp c_iat].
+    assert (Hf := round_s_floor (tb / second) (now + v_offset v)).
+    assert (Hr : round_s (now - v_max_age v) <= now - v_max_age v + half_second)
+      by (unfold round_s, second, half_second; lia).
+    generalize dependent (round_s (now + v_offset v)). generalize dependent (round_s (now - v_max_age v)).
+    intros r2 Hr r1 Hf. unfold second, half_second in *.
+    repeat split; lia.
+  - split; [reflexivity|]. unfold sig_ok, helper_claims. cbn [sd_wf sd_alg sd_kid c_iss].
+    split; [reflexivity|]. split; [exact Hal|]. exists key. split; [exact Hk|].
+    apply (Hv (mkSig true alg kid key true)). reflexivity.
+Qed.
+
+(* one helper instance called any number of times, each assertion presented (to any
+   verifier configuration of that step) soon enough after ITS call: all are accepted -
+   what call n sends does not depend on the calls before it *)
+Definition helper_step_ok (life : Z) (issuer_in : vcfg -> Prop) (s : vcfg * Z * Z) : Prop :=
+  let '(v, now, tb) := s in
+  issuer_in v /\ 0 <= v_offset v
+  /\ (v_max_age v = 0 \/ now - tb + second + half_second <= v_max_age v)
+  /\ second <= tb /\ tb <= now /\ now + v_offset v < (tb / second + life) * second.
+
+Lemma helper_sequence_accepted verify t client kid key alg auds life (calls : list (vcfg * Z * Z)) :
+  (forall d, sd_intact d = true -> verify (sd_signer d) d = true) ->
+  lookup_key t client kid = Some key -> In alg accepted_algs ->
+  Forall (helper_step_ok life (fun v => In (v_issuer v) auds)) calls ->
+  verify_sequence verify t
+    (combine (map fst calls) (helper_sequence client auds life alg kid key (map snd calls)))
+  = map (fun s => Ok (helper_claims client auds life (snd s))) calls.
+Proof.
+  intros Hv Hk Hal Hall. unfold verify_sequence, helper_sequence.
+  induction Hall as [|[[v now] tb] calls Hs Hall IH]; [reflexivity|].
+  cbn [map combine fst snd]. rewrite IH. f_equal.
+  destruct Hs as (Ha & Ho & Hm & Htb & Hnow & He).
+  now apply interop_fresh.
 Qed.
 
 (* ---------------------------------------------------------------- request objects *)
@@ -415,8 +523,9 @@ Qed.
 Definition entry_extra (e : entry) (cl : clienttable) (c : claims) (sub : string) : Prop :=
   match e with
   | EVerify => sub = c_sub c
-  | EPrivateKey | ERouter true _ => sub = "" /\ lookup_client cl (c_iss c) = Some private_key_jwt
-  | ERouter false _ => sub = "" /\ exists m, lookup_client cl (c_iss c) = Some m
+  | EPrivateKey => sub = "" /\ lookup_client cl (c_iss c) = Some private_key_jwt
+  | ERouter legacy ep _ owner =>
+      sub = "" /\ kind_extra (ep_auth legacy ep) cl (c_iss c) /\ (ep_owned ep = true -> c_iss c = owner)
   | _ => sub = ""
   end.
 
@@ -451,29 +560,21 @@ Proof.
     + split; [discriminate|]. intros (c' & H & -> & _).
       assert (Hx : jwt_profile_grant sym_verify v t now tok = Ok (c_iss c')) by (apply jwt_profile_grant_iff; now exists c').
       congruence.
-  - destruct legacy.
-    + destruct (authorize_private_jwt_key sym_verify v t cl now tok) as [i|x] eqn:Hc.
-      * apply authorize_private_jwt_key_iff in Hc. destruct Hc as (c & Hc & -> & Hm).
-        split; [intro H; injection H as <- <-; now exists c|].
-        intros (c' & H & -> & -> & _). rewrite Hc in H. now injection H as <-.
-      * split; [discriminate|]. intros (c' & H & -> & _ & Hm).
-        assert (Hx : authorize_private_jwt_key sym_verify v t cl now tok = Ok (c_iss c'))
-          by (apply authorize_private_jwt_key_iff; now exists c').
-        congruence.
-    + destruct (provider_router_auth sym_verify v t cl now tok) as [i|x] eqn:Hc.
-      * apply provider_router_auth_iff in Hc. destruct Hc as (c & Hc & -> & Hm).
-        split; [intro H; injection H as <- <-; now exists c|].
-        intros (c' & H & -> & -> & _). rewrite Hc in H. now injection H as <-.
-      * split; [discriminate|]. intros (c' & H & -> & _ & Hm).
-        assert (Hx : provider_router_auth sym_verify v t cl now tok = Ok (c_iss c'))
-          by (apply provider_router_auth_iff; now exists c').
-        congruence.
+  - destruct (router_endpoint_auth sym_verify legacy ep owner v t cl now tok) as [i|x] eqn:Hc.
+    + apply router_endpoint_auth_iff in Hc. destruct Hc as (c & Hc & -> & Hk & Ho).
+      split; [intro H; injection H as <- <-; exists c; now repeat split|].
+      intros (c' & H & -> & -> & _). rewrite Hc in H. now injection H as <-.
+    + split; [discriminate|]. intros (c' & H & -> & _ & Hk & Ho).
+      assert (Hx : router_endpoint_auth sym_verify legacy ep owner v t cl now tok = Ok (c_iss c'))
+        by (apply router_endpoint_auth_iff; exists c'; now repeat split).
+      congruence.
 Qed.
 
 Definition entry_need (e : entry) (cl : clienttable) (c : claims) : Prop :=
   match e with
-  | EPrivateKey | ERouter true _ => lookup_client cl (c_iss c) = Some private_key_jwt
-  | ERouter false _ => exists m, lookup_client cl (c_iss c) = Some m
+  | EPrivateKey => lookup_client cl (c_iss c) = Some private_key_jwt
+  | ERouter legacy ep _ owner =>
+      kind_extra (ep_auth legacy ep) cl (c_iss c) /\ (ep_owned ep = true -> c_iss c = owner)
   | _ => True
   end.
 
@@ -484,17 +585,33 @@ Proof.
   - split; discriminate.
 Qed.
 
-(* the guard of the main theorem: what the client helpers are assumed to build
-   (accepted algorithm - see Fxx-C14-1 -, sub = iss, the configured issuer in aud);
-   the correspondence run checks the real helpers against it through [spec] *)
-Definition helper_built_ok (v : vcfg) (d : sigdesc) (c : claims) : bool :=
-  string_in (sd_alg d) accepted_algs && String.eqb (c_sub c) (c_iss c) && string_in (v_issuer v) (c_aud c).
+(* the guard of the main theorem: what a call [h] of a client helper is assumed to send
+   (accepted algorithm - see Fxx-C14-1 -, sub = iss, the configured issuer in aud, and
+   FRESH claims: iat = a clock reading inside the bracket of THAT call, cut to seconds,
+   exp at least the asked lifetime after the start of the call - i.e. [helper_claims]
+   for a clock reading of the call, see [helper_claims_built_ok]); the correspondence run
+   checks the real helpers, called repeatedly on long-lived instances, against it
+   through [spec] *)
+Definition helper_built_ok (v : vcfg) (h : hcall) (d : sigdesc) (c : claims) : bool :=
+  string_in (sd_alg d) accepted_algs && String.eqb (c_sub c) (c_iss c) && string_in (v_issuer v) (c_aud c)
+  && Z.leb (h_t0 h / second) (c_iat c) && Z.leb (c_iat c) (h_t1 h / second)
+  && Z.leb (h_t0 h / second + h_life h) (c_exp c).
 
 Definition helper_alg_accepted (i : input) : bool :=
   match i with
-  | IAssert _ true v _ _ _ _ (TJws d c) => helper_built_ok v d c
+  | IAssert _ (Some h) v _ _ _ _ (TJws d c) => helper_built_ok v h d c
   | _ => true
   end.
+
+Lemma helper_claims_built_ok v h client auds life alg kid key tb :
+  In alg accepted_algs -> In (v_issuer v) auds ->
+  h_t0 h <= tb -> tb <= h_t1 h -> h_life h = life ->
+  helper_built_ok v h (mkSig true alg kid key true) (helper_claims client auds life tb) = true.
+Proof.
+  intros Hal Ha H0 H1 Hl. unfold helper_built_ok, helper_claims. cbn [sd_alg c_sub c_iss c_aud c_iat c_exp].
+  apply string_in_In in Hal. apply string_in_In in Ha. rewrite Hal, Ha, String.eqb_refl. cbn [andb].
+  unfold second in *. repeat (apply andb_true_iff; split); lia.
+Qed.
 
 Definition wf (i : input) : bool :=
   match i with
@@ -520,14 +637,15 @@ Proof.
   repeat (apply andb_true_iff; split); lia.
 Qed.
 
-Lemma must_accept_model e v t cl t0 t1 d c :
-  t0 <= t1 -> helper_built_ok v d c = true ->
-  must_accept e v t cl t0 t1 d c = true ->
+Lemma must_accept_model e v t cl t0 t1 h d c :
+  t0 <= t1 -> helper_built_ok v h d c = true ->
+  must_accept e v t cl t0 t1 h d c = true ->
   verify_assertion sym_verify v t t0 (TJws d c) = Ok c
   /\ entry_need e cl c.
 Proof.
   intros Ht Hb H. unfold must_accept in H. unfold helper_built_ok in Hb.
-  apply andb_true_iff in Hb. destruct Hb as [Hb Haud]. apply andb_true_iff in Hb. destruct Hb as [Hal Hsubiss].
+  repeat (apply andb_true_iff in Hb; destruct Hb as [Hb ?]).
+  rename Hb into Hal.
   repeat (apply andb_true_iff in H; destruct H as [H ?]).
   rename H into Hw.
   split.
@@ -536,23 +654,26 @@ Proof.
     + unfold time_ok.
       match goal with Hm : (Z.eqb (v_max_age v) 0 || _)%bool = true |- _ => rename Hm into Hmax end.
       assert (Hf := round_s_floor (c_iat c) (t0 + v_offset v)).
-      assert (Hb := round_s_below (c_iat c) (t0 - v_max_age v)).
+      assert (Hr : round_s (t0 - v_max_age v) <= t0 - v_max_age v + half_second)
+        by (unfold round_s, second, half_second; lia).
       generalize dependent (round_s (t0 + v_offset v)). generalize dependent (round_s (t0 - v_max_age v)).
-      intros r2 Hb r1 Hf. unfold second in *.
+      intros r2 Hr r1 Hf. unfold second, half_second in *.
       repeat split; lia.
     + split; [intros _; now apply String.eqb_eq|].
       unfold sig_ok. split; [assumption|]. split; [now apply string_in_In|].
       now apply signed_by_named_iff.
   - match goal with He : match e with EVerify => _ | _ => _ end = true |- _ => rename He into Hent end.
-    destruct e as [| | | |[|] cid]; cbn [entry_need]; try exact I.
+    destruct e as [| | | |legacy ep cid owner]; cbn [entry_need]; try exact I.
     + now apply is_pkjwt_iff.
-    + now apply is_pkjwt_iff.
-    + destruct (lookup_client cl (c_iss c)) as [m|]; [now exists m | discriminate].
+    + apply andb_true_iff in Hent. destruct Hent as [Hk Ho]. split.
+      * destruct (ep_auth legacy ep); cbn [kind_extra]; [exact I | | now apply is_pkjwt_iff].
+        destruct (lookup_client cl (c_iss c)) as [m|]; [now exists m | discriminate].
+      * intro Hown. rewrite Hown in Ho. cbn [negb orb] in Ho. now apply String.eqb_eq.
 Qed.
 
 Lemma spec_assert_model e helper v t cl t0 t1 tok :
   t0 <= t1 ->
-  (helper = true -> forall d c, tok = TJws d c -> helper_built_ok v d c = true) ->
+  (forall h d c, helper = Some h -> tok = TJws d c -> helper_built_ok v h d c = true) ->
   spec_assert e helper v t cl t0 t1 tok (model_assert e v t cl t0 tok) = true.
 Proof.
   intros Ht Hg. unfold spec_assert.
@@ -560,24 +681,23 @@ Proof.
   - apply model_assert_ok_iff in Hm. destruct Hm as (c & Hv & -> & Hx).
     destruct (proj1 (verify_assertion_iff _ _ _ _ _ _) Hv) as (d & -> & _).
     rewrite (assert_conditions_model v t t0 t1 d c Ht Hv), String.eqb_refl. cbn [andb].
-    destruct e as [| | | |[|] cid]; cbn [entry_extra] in Hx.
+    destruct e as [| | | |legacy ep cid owner]; cbn [entry_extra] in Hx.
     + subst sub. apply String.eqb_refl.
     + reflexivity.
     + destruct Hx as [_ Hx]. now apply is_pkjwt_iff.
     + reflexivity.
-    + destruct Hx as [_ Hx]. now apply is_pkjwt_iff.
-    + reflexivity.
-  - destruct helper; [|reflexivity]. destruct tok as [| | |d c]; try reflexivity. cbn [andb].
-    destruct (must_accept e v t cl t0 t1 d c) eqn:Hma; [|reflexivity]. exfalso.
-    destruct (must_accept_model e v t cl t0 t1 d c Ht (Hg eq_refl d c eq_refl) Hma) as [Hv Hp].
+    + destruct Hx as (_ & Hx & _). destruct (ep_auth legacy ep); try reflexivity. now apply is_pkjwt_iff.
+  - destruct helper as [h|]; [|reflexivity]. destruct tok as [| | |d c]; try reflexivity.
+    destruct (must_accept e v t cl t0 t1 h d c) eqn:Hma; [|reflexivity]. exfalso.
+    destruct (must_accept_model e v t cl t0 t1 h d c Ht (Hg h d c eq_refl eq_refl) Hma) as [Hv Hp].
     assert (Hok : exists sub, model_assert e v t cl t0 (TJws d c) = Ok (c_iss c, sub)).
-    { destruct e as [| | | |[|] cid]; cbn [entry_need] in Hp.
+    { destruct e as [| | | |legacy ep cid owner]; cbn [entry_need] in Hp.
       - exists (c_sub c). apply model_assert_ok_iff. exists c. now repeat split.
       - exists "". apply model_assert_ok_iff. exists c. now repeat split.
       - exists "". apply model_assert_ok_iff. exists c. now repeat split.
       - exists "". apply model_assert_ok_iff. exists c. now repeat split.
-      - exists "". apply model_assert_ok_iff. exists c. now repeat split.
-      - exists "". apply model_assert_ok_iff. exists c. now repeat split. }
+      - exists "". apply model_assert_ok_iff. exists c. destruct Hp as [Hk Ho].
+        split; [assumption|]. split; [reflexivity|]. cbn [entry_extra]. now repeat split. }
     destruct Hok as (sub & Hok). congruence.
 Qed.
 
@@ -585,7 +705,7 @@ Lemma spec_model i : wf i = true -> helper_alg_accepted i = true -> spec i (mode
 Proof.
   destruct i as [e helper v t cl t0 t1 tok | via sup t iss outer tok]; cbn [wf helper_alg_accepted]; intros Hwf Hh.
   - cbn [model spec]. apply spec_assert_model; [lia|].
-    intros -> d c ->. exact Hh.
+    intros h d c -> ->. exact Hh.
   - destruct via; cbn [model spec].
     + unfold authorize_until_validation. destruct sup.
       * unfold run_request_object.
@@ -604,7 +724,8 @@ Qed.
 
 (* the recorded finding: a helper-built assertion for a registered Ed25519 key *)
 Definition eddsa_witness : input :=
-  IAssert EVerify true (mkV "https://op" (3600 * second) second SubIsIssuer CtorStorage)
+  IAssert EVerify (Some (mkH (1000 * second + 1) (1000 * second + 2) 3600))
+    (mkV "https://op" (3600 * second) second SubIsIssuer CtorStorage)
     [("c", "k", 0%nat)] [] (1000 * second + 5) (1000 * second + 7)
     (TJws (mkSig true "EdDSA" "k" 0%nat true) (mkClaims "c" "c" ["https://op"] 1000 4600)).
 
@@ -651,4 +772,25 @@ Example interop_nonvacuous :
 Proof.
   exists nv_v, nv_table, (1000 * second + 5), (1000 * second + 1), "c-alpha", "a1", 0%nat, "RS256", ["https://op"], 4600.
   vm_compute. repeat split; try discriminate; try (now left); right; discriminate.
+Qed.
+
+Example interop_fresh_nonvacuous :
+  (* two calls on one instance, 3 s apart, each presented 5 ns after it was built to a
+     verifier that allows 2 s: both accepted; the FIRST assertion sent again at the time
+     of the second call is too old for that verifier *)
+  let v := mkV "https://op" (2 * second) second SubIsIssuer CtorStorage in
+  let tb1 := 1000 * second + 1 in let tb2 := 1003 * second + 1 in
+  verify_sequence sym_verify nv_table
+    (combine [(v, tb1 + 5); (v, tb2 + 5)]
+       (helper_sequence "c-alpha" ["https://op"] 3600 "RS256" "a1" 0%nat [tb1; tb2]))
+  = [Ok (helper_claims "c-alpha" ["https://op"] 3600 tb1); Ok (helper_claims "c-alpha" ["https://op"] 3600 tb2)]
+  /\ verify_assertion sym_verify v nv_table (tb2 + 5)
+       (helper_token "c-alpha" ["https://op"] 3600 "RS256" "a1" 0%nat tb1) = Err EIatOld
+  /\ Forall (helper_step_ok 3600 (fun v => In (v_issuer v) ["https://op"])) [(v, tb1 + 5, tb1); (v, tb2 + 5, tb2)].
+Proof.
+  cbv zeta. split; [vm_compute; reflexivity|]. split; [vm_compute; reflexivity|].
+  constructor; [|constructor; [|constructor]];
+    (split; [left; reflexivity|]); (split; [vm_compute; discriminate|]);
+    (split; [right; vm_compute; discriminate|]); (split; [vm_compute; discriminate|]);
+    (split; vm_compute; [discriminate | reflexivity]).
 Qed.
